@@ -211,6 +211,30 @@ def prevNode (bs : List Nat) (cycle node : Nat) : Option (Nat × Nat) :=
 
 /-! ### step lengths (`_getStepAndCycleLengths`) over exact rationals -/
 
+/-- the pattern `expand(cs[list]) if cs[list] not in [None, []] else ([cs[scalar]] * nCycles if
+cs[scalar] is not None else default)` of `getAvailabilityFactors` / `_getStepAndCycleLengths`
+(a scalar of exactly 0 is a value, not "unset") -/
+def listOrScalar (lst : Option (List Rat)) (scalar : Option Rat) (nCycles : Nat) (dflt : List Rat) : List Rat :=
+  match lst with
+  | some (x :: xs) => x :: xs
+  | _ => match scalar with
+    | some v => List.replicate nCycles v
+    | none => dflt
+
+/-- `getAvailabilityFactors(cs)` for the simple inputs -/
+def availabilitySimple (afs : Option (List Rat)) (af : Option Rat) (nCycles : Nat) : List Rat :=
+  listOrScalar afs af nCycles [1]
+
+/-- the `cycleLengths` of `_getStepAndCycleLengths` for the simple inputs -/
+def cycleLengthsSimple (cls : Option (List Rat)) (cl : Option Rat) (nCycles : Nat) : List Rat :=
+  listOrScalar cls cl nCycles [0]
+
+/-- `getPowerFractions(cs)` for the simple inputs -/
+def powerFractionsSimple (pfs : Option (List Rat)) (nCycles burnSteps : Nat) : List (List Rat) :=
+  (match pfs with
+   | some (x :: xs) => x :: xs
+   | _ => List.replicate nCycles 1).map (fun v => List.replicate burnSteps v)
+
 /-- simple inputs: `[[length * availability / burnSteps] * burnSteps for …]`, `[[]]` for 0 burn steps -/
 def stepLengthsSimple (cycleLengths avail : List Rat) (burnSteps : Nat) : List (List Rat) :=
   if burnSteps = 0 then [[]]
